@@ -244,6 +244,48 @@ let frame_ldf (rest : string) : string =
   | [maxf] -> ignore maxf; ""
   | _ -> failwith "ldf: bad case"
 
+(* ---------- C02: settlement ---------- *)
+let c02 (rest : string) : string =
+  match split_on rest '|' with
+  | hdr :: evs ->
+      let evs = match evs with [] -> [] | [e] -> split_on e ';' | _ -> failwith "c02: too many |" in
+      (match words hdr with
+       | [noi; links] ->
+           let nl = Stdlib.String.length links in
+           let ls = Stdlib.List.init nl (fun i ->
+             (n_of_int (100 + i), Disposition.LSender ((links.[i] = '2'), []))) in
+           let s0 = { Disposition.ds = { Disposition.d_map = []; d_links = ls }; ds_next = n_of_string noi } in
+           let buf = Buffer.create 256 in
+           let _ = Stdlib.List.fold_left (fun s e ->
+             let ev = match words e with
+               | ["S"; l; t] -> Disposition.DSend (n_of_int (100 + int_of_string l), n_of_string t)
+               | ["D"; r; f; l; st; state] ->
+                   Disposition.DDisp ((r = "1"), n_of_string f, opt_n l, (st = "1"), opt_n state)
+               | _ -> failwith ("c02: bad event " ^ e) in
+             let ((s', res), ech) = Disposition.dstep s ev in
+             (match ev with
+              | Disposition.DSend _ -> Buffer.add_string buf "S"
+              | Disposition.DDisp _ ->
+                  Buffer.add_string buf ("D[" ^ Stdlib.String.concat "," (Stdlib.List.map (fun ((a, b), st) ->
+                    Printf.sprintf "%s-%s:%s" (str_n a) (str_n b) (str_on st)) ech) ^ "]"));
+             let rs = Stdlib.List.sort compare (Stdlib.List.map (fun ((ih, tag), o) ->
+               Printf.sprintf "%s/%s=%s" (str_n ih) (str_n tag) (str_on o)) res) in
+             let ids = Stdlib.List.filter_map (fun ((r, id), _) -> if r then Some (int_of_n id) else None)
+                         s'.Disposition.ds.Disposition.d_map in
+             let ids = Stdlib.List.sort compare ids in
+             let uns = Stdlib.List.mapi (fun i (_, l) ->
+               let tags = match l with
+                 | Disposition.LSender (_, u) -> Stdlib.List.map (fun (t, _) -> int_of_n t) u
+                 | Disposition.LReceiver u -> Stdlib.List.map (fun (t, _) -> int_of_n t) u in
+               Printf.sprintf "%d:[%s]" i (Stdlib.String.concat ", " (Stdlib.List.map string_of_int (Stdlib.List.sort compare tags))))
+               s'.Disposition.ds.Disposition.d_links in
+             Buffer.add_string buf (Printf.sprintf " R[%s] M[%s] U[%s] ; " (Stdlib.String.concat "," rs)
+               (Stdlib.String.concat ", " (Stdlib.List.map string_of_int ids)) (Stdlib.String.concat " " uns));
+             s') s0 evs in
+           Buffer.contents buf
+       | _ -> failwith "c02: bad header")
+  | [] -> failwith "c02: empty"
+
 let dispatch (line : string) : string =
   match Stdlib.String.index_opt line ' ' with
   | None -> failwith "no model tag"
@@ -253,6 +295,7 @@ let dispatch (line : string) : string =
       (match tag with
        | "c07" -> c07 rest
        | "c08" -> c08 rest
+       | "c02" -> c02 rest
        | "xfer" -> frame_xfer rest
        | "other" -> frame_other rest
        | "ldf" -> frame_ldf rest
